@@ -81,6 +81,70 @@ theorem spec_readFull (A K n : Nat) (hK : 2 ≤ K) : Spec A 0 K 1 n (readFull n)
     refine ⟨?_, rfl, fun h => by simp [Outcome.isOk] at h, ?_, ?_⟩ <;>
       simp only [List.length_nil, Nat.mul_zero] <;> omega
 
+theorem readFull_ok_len {n : Nat} {s s' : St} {b : List UInt8} (h : readFull n s = (.ok b, s')) : b.length = n := by
+  unfold readFull at h
+  split at h
+  · rename_i hn
+    simp only [Prod.mk.injEq, Outcome.ok.injEq] at h
+    obtain ⟨rfl, _⟩ := h
+    simp [List.length_take]; omega
+  · simp at h
+
+/-- bind where the continuation may rely on what the first computation returned -/
+theorem spec_bind_ok {α β} {A B1 B2 K S1 S2 w1 w2 : Nat} {m : M α} {f : α → M β}
+    (hm : Spec A B1 K S1 w1 m) (hf : ∀ a, (∃ s s', m s = (.ok a, s')) → Spec A B2 K S2 w2 (f a)) :
+    Spec A (max B1 B2) K (S1 + S2) (w1 + w2) (bind m f) := by
+  intro s
+  obtain ⟨h1, h2, h3, h4, h5⟩ := hm s
+  unfold bind
+  rcases hms : m s with ⟨o, s1⟩
+  rw [hms] at h1 h2 h3 h4 h5
+  cases o with
+  | ok a =>
+    obtain ⟨g1, g2, g3, g4, g5⟩ := hf a ⟨s, s1, hms⟩ s1
+    obtain ⟨h6, h7⟩ := h3 rfl
+    simp only at h1 h4 h5 h6 h7 ⊢
+    refine ⟨by omega, g2, fun ok => ?_, by omega, by omega⟩
+    obtain ⟨g6, g7⟩ := g3 ok
+    exact ⟨by omega, by omega⟩
+  | err e =>
+    simp only at h1 h4 h5 ⊢
+    refine ⟨h1, rfl, fun h => by simp [Outcome.isOk] at h, by omega, by omega⟩
+  | panic p => simp [Outcome.isPanic] at h2
+
+theorem u32le_ok {b : List UInt8} (h : b.length = 4) : u32le b = .ok (le b) := by
+  unfold u32le; rw [if_neg (by omega), List.take_of_length_le (by omega)]
+
+theorem u64le_ok {b : List UInt8} (h : b.length = 8) : u64le b = .ok (le b) := by
+  unfold u64le; rw [if_neg (by omega), List.take_of_length_le (by omega)]
+
+theorem spec_liftOk {α} (A K : Nat) (v : α) : Spec A 0 K 0 0 (liftO (Outcome.ok v)) := by
+  intro s; simp [liftO, Outcome.isPanic]
+
+theorem spec_sliceTo (A K len : Nat) (k : Int) (h0 : 0 ≤ k) (h1 : k ≤ (len : Int)) : Spec A 0 K 0 0 (sliceTo len k) := by
+  intro s
+  unfold sliceTo
+  rw [if_neg (by omega)]
+  simp [Outcome.isPanic]
+
+/-- the 4-byte little-endian integer every fixed-width field, tag and count goes through: `io.ReadFull` fills the
+whole buffer or fails, so `binary.LittleEndian.Uint32` never sees a short slice -/
+theorem spec_read32 {β} (A K : Nat) (hK : 2 ≤ K) {B S w : Nat} (f : Nat → M β) (hf : ∀ v, Spec A B K S w (f v)) :
+    Spec A B K (1 + S) (4 + w) (bind (readFull 4) fun b => bind (liftO (u32le b)) f) := by
+  refine (spec_bind_ok (spec_readFull A K 4 hK) (fun b hb => ?_) (B2 := B) (S2 := S) (w2 := w)).weaken
+    (by simp) (by omega) (by omega)
+  obtain ⟨s, s', hs⟩ := hb
+  rw [u32le_ok (readFull_ok_len hs)]
+  exact (spec_bind (spec_liftOk A K _) hf).weaken (by simp) (by omega) (by omega)
+
+theorem spec_read64 {β} (A K : Nat) (hK : 2 ≤ K) {B S w : Nat} (f : Nat → M β) (hf : ∀ v, Spec A B K S w (f v)) :
+    Spec A B K (1 + S) (8 + w) (bind (readFull 8) fun b => bind (liftO (u64le b)) f) := by
+  refine (spec_bind_ok (spec_readFull A K 8 hK) (fun b hb => ?_) (B2 := B) (S2 := S) (w2 := w)).weaken
+    (by simp) (by omega) (by omega)
+  obtain ⟨s, s', hs⟩ := hb
+  rw [u64le_ok (readFull_ok_len hs)]
+  exact (spec_bind (spec_liftOk A K _) hf).weaken (by simp) (by omega) (by omega)
+
 theorem spec_padLoop (A K k : Nat) (hK : 2 ≤ K) : Spec A 0 K (2 * k) 0 (padLoop k) := by
   induction k with
   | zero => exact spec_ret A K ()
@@ -88,47 +152,51 @@ theorem spec_padLoop (A K k : Nat) (hK : 2 ≤ K) : Spec A 0 K (2 * k) 0 (padLoo
     unfold padLoop
     exact (spec_bind (spec_readFull A K 1 hK) (fun _ => ih)).weaken (by simp) (by omega) (by omega)
 
-/-- the chunk loop of the repaired readN: what is appended has been read -/
-theorem spec_readChunks (A K k rem : Nat) (hA : 1 ≤ A) (hK : 3 ≤ K) :
+/-- the chunk loop of the repaired readN: what is appended has been read; `chunk[:k]` is in range because the loop
+condition `len(data) < n` makes `k = min(n - len(data), len(chunk))` positive -/
+theorem spec_readChunks (A K fuel n got : Nat) (hA : 1 ≤ A) (hK : 3 ≤ K) :
     ∀ s : St,
-      (readChunks k rem s).2.rest.length ≤ s.rest.length ∧
-      (readChunks k rem s).1.isPanic = false ∧
-      ((readChunks k rem s).1.isOk = true →
-        (readChunks k rem s).2.rest.length + min rem (k * maxPrealloc) ≤ s.rest.length) ∧
-      (readChunks k rem s).2.alloc + A * (readChunks k rem s).2.rest.length ≤ s.alloc + A * s.rest.length ∧
-      (readChunks k rem s).2.steps + K * (readChunks k rem s).2.rest.length ≤ s.steps + K * s.rest.length + 1 := by
-  induction k generalizing rem with
+      (readChunks fuel n got s).2.rest.length ≤ s.rest.length ∧
+      (readChunks fuel n got s).1.isPanic = false ∧
+      ((readChunks fuel n got s).1.isOk = true →
+        (readChunks fuel n got s).2.rest.length + min (n - got) (fuel * maxPrealloc) ≤ s.rest.length) ∧
+      (readChunks fuel n got s).2.alloc + A * (readChunks fuel n got s).2.rest.length ≤ s.alloc + A * s.rest.length ∧
+      (readChunks fuel n got s).2.steps + K * (readChunks fuel n got s).2.rest.length ≤ s.steps + K * s.rest.length + 1 := by
+  induction fuel generalizing got with
   | zero => intro s; simp [readChunks, ret, Outcome.isPanic]
-  | succ k ih =>
+  | succ fuel ih =>
     intro s
     unfold readChunks
     split
     · rename_i h0
-      subst h0
-      simp [ret, Outcome.isPanic]
+      have : n - got = 0 := by omega
+      simp [ret, Outcome.isPanic, this]
     rename_i hrem
-    by_cases h : min rem maxPrealloc ≤ s.rest.length
-    · have hr : readFull (min rem maxPrealloc) s = (.ok (s.rest.take (min rem maxPrealloc)),
-          { s with rest := s.rest.drop (min rem maxPrealloc), steps := s.steps + 1 + min rem maxPrealloc }) := by
+    have hm : maxPrealloc = 4096 := rfl
+    -- k as a Go int, then as the natural number it is
+    have hk : ∃ c : Nat, min ((n : Int) - (got : Int)) (maxPrealloc : Int) = (c : Int) ∧ c = min (n - got) maxPrealloc ∧ 1 ≤ c := by
+      refine ⟨min (n - got) maxPrealloc, ?_, rfl, by omega⟩
+      omega
+    obtain ⟨c, hc, hc2, hc1⟩ := hk
+    simp only [hc, Int.toNat_natCast]
+    have hsl : sliceTo maxPrealloc (c : Int) s = (.ok (), s) := by
+      unfold sliceTo; rw [if_neg (by omega)]
+    by_cases h : c ≤ s.rest.length
+    · have hr : readFull c s = (.ok (s.rest.take c), { s with rest := s.rest.drop c, steps := s.steps + 1 + c }) := by
         simp [readFull, h]
-      simp only [bind, hr, allocN]
-      obtain ⟨g1, g2, g3, g4, g5⟩ := ih (rem - min rem maxPrealloc)
-        { rest := List.drop (min rem maxPrealloc) s.rest, alloc := s.alloc + min rem maxPrealloc,
-          steps := s.steps + 1 + min rem maxPrealloc }
+      simp only [bind, hsl, hr, allocN]
+      obtain ⟨g1, g2, g3, g4, g5⟩ := ih (got + c)
+        { rest := List.drop c s.rest, alloc := s.alloc + c, steps := s.steps + 1 + c }
       simp only [List.length_drop] at g1 g3 g4 g5
-      have hp : A * (s.rest.length - min rem maxPrealloc) + 1 * min rem maxPrealloc ≤ A * s.rest.length :=
-        pot_le (by omega) hA
-      have hq : K * (s.rest.length - min rem maxPrealloc) + 3 * min rem maxPrealloc ≤ K * s.rest.length :=
-        pot_le (by omega) hK
-      have hm : maxPrealloc = 4096 := rfl
+      have hp : A * (s.rest.length - c) + 1 * c ≤ A * s.rest.length := pot_le (by omega) hA
+      have hq : K * (s.rest.length - c) + 3 * c ≤ K * s.rest.length := pot_le (by omega) hK
       refine ⟨by omega, g2, fun ok => ?_, by omega, by omega⟩
       have := g3 ok
       rw [Nat.succ_mul]
       omega
-    · have hr : readFull (min rem maxPrealloc) s = (.err "EOF",
-          { s with rest := [], steps := s.steps + 1 + s.rest.length }) := by
+    · have hr : readFull c s = (.err "EOF", { s with rest := [], steps := s.steps + 1 + s.rest.length }) := by
         simp [readFull, h]
-      simp only [bind, hr]
+      simp only [bind, hsl, hr]
       have hq : K * 0 + 3 * s.rest.length ≤ K * s.rest.length := pot_le (by omega) hK
       refine ⟨?_, rfl, fun h => by simp [Outcome.isOk] at h, ?_, ?_⟩ <;>
         simp only [List.length_nil, Nat.mul_zero] <;> omega
@@ -164,9 +232,9 @@ theorem spec_readN (A K n : Nat) (hA : 2 ≤ A) (hK : 3 ≤ K) : Spec A maxPreal
   · rename_i h
     intro s
     simp only [bind, allocN]
-    obtain ⟨g1, g2, g3, g4, g5⟩ := spec_readChunks 1 K ((n + maxPrealloc - 1) / maxPrealloc) n (by omega) hK
+    obtain ⟨g1, g2, g3, g4, g5⟩ := spec_readChunks 1 K ((n + maxPrealloc - 1) / maxPrealloc) n 0 (by omega) hK
       { s with alloc := s.alloc + maxPrealloc }
-    generalize readChunks ((n + maxPrealloc - 1) / maxPrealloc) n { s with alloc := s.alloc + maxPrealloc } = r at *
+    generalize readChunks ((n + maxPrealloc - 1) / maxPrealloc) n 0 { s with alloc := s.alloc + maxPrealloc } = r at *
     simp only at g1 g3 g4 g5
     have hm : maxPrealloc = 4096 := rfl
     have hk : n ≤ (n + maxPrealloc - 1) / maxPrealloc * maxPrealloc := by
@@ -174,7 +242,8 @@ theorem spec_readN (A K n : Nat) (hA : 2 ≤ A) (hK : 3 ≤ K) : Spec A maxPreal
     refine ⟨g1, g2, fun ok => ?_, ?_, g5⟩
     · have h6 := g3 ok
       have h7 : r.2.rest.length + n ≤ s.rest.length := by
-        have : min n ((n + maxPrealloc - 1) / maxPrealloc * maxPrealloc) = n := Nat.min_eq_left hk
+        have : min (n - 0) ((n + maxPrealloc - 1) / maxPrealloc * maxPrealloc) = n := by
+          rw [Nat.sub_zero]; exact Nat.min_eq_left hk
         omega
       refine ⟨h7, ?_⟩
       have := @pot_stepn A 1 s.rest.length r.2.rest.length r.2.alloc (s.alloc + maxPrealloc) 1 n (by omega) h7 (by omega)
@@ -197,10 +266,14 @@ theorem spec_readByteSlice (A K : Nat) (hA : 2 ≤ A) (hK : 3 ≤ K) :
     · omega
     · omega
   · split
-    · refine (spec_bind (spec_readFull A K 3 (by omega)) (fun sb => ?_) (B2 := maxPrealloc) (S2 := 8) (w2 := 0)).weaken
+    · refine (spec_bind_ok (spec_readFull A K 3 (by omega)) (fun sb hsb => ?_) (B2 := maxPrealloc) (S2 := 8) (w2 := 0)).weaken
+        (by omega) (by omega) (by omega)
+      obtain ⟨s0, s0', hs0⟩ := hsb
+      rw [u32le_ok (by simp [readFull_ok_len hs0])]
+      refine (spec_bind (spec_liftOk A K _) (fun n => ?_) (B2 := maxPrealloc) (S2 := 8) (w2 := 0)).weaken
         (by omega) (by omega) (by omega)
       simp only [Cfg.fixed, Bool.false_eq_true, if_false]
-      refine (spec_bind (spec_readN A K (le sb) hA hK) (fun _ =>
+      refine (spec_bind (spec_readN A K n hA hK) (fun _ =>
         spec_bind (spec_padLoop A K _ (by omega)) (fun _ => spec_ret A K _))).weaken ?_ ?_ (by omega)
       · omega
       · omega
@@ -276,18 +349,18 @@ theorem decode_spec : (t : Ty) → t.wf = true → (A K : Nat) → t.allocA ≤ 
   | .int4, _, A, K, hA, hK => by
     simp only [Ty.allocA, Ty.stepK] at hA hK
     unfold decode
-    exact (spec_bind (spec_tick A K) fun _ => spec_bind (spec_readFull A K 4 (by omega)) fun b => spec_ret A K _).weaken
+    exact (spec_bind (spec_tick A K) fun _ => spec_read32 A K (by omega) _ (fun v => spec_ret A K v)).weaken
       (by simp [Ty.allocB]) (by simp [Ty.stepS]) (by simp [Ty.width])
   | .int8, _, A, K, hA, hK => by
     simp only [Ty.allocA, Ty.stepK] at hA hK
     unfold decode
-    exact (spec_bind (spec_tick A K) fun _ => spec_bind (spec_readFull A K 8 (by omega)) fun b => spec_ret A K _).weaken
+    exact (spec_bind (spec_tick A K) fun _ => spec_read64 A K (by omega) _ (fun v => spec_ret A K v)).weaken
       (by simp [Ty.allocB]) (by simp [Ty.stepS]) (by simp [Ty.width])
   | .bool, _, A, K, hA, hK => by
     simp only [Ty.allocA, Ty.stepK] at hA hK
     unfold decode
-    refine (spec_bind (spec_tick A K) fun _ => spec_bind (B2 := 0) (S2 := 0) (w2 := 0)
-      (spec_readFull A K 4 (by omega)) fun b => ?_).weaken (by simp [Ty.allocB]) (by simp [Ty.stepS]) (by simp [Ty.width])
+    refine (spec_bind (spec_tick A K) fun _ => spec_read32 (B := 0) (S := 0) (w := 0) A K (by omega) _
+      (fun v => ?_)).weaken (by simp [Ty.allocB]) (by simp [Ty.stepS]) (by simp [Ty.width])
     split
     · exact spec_ret A K _
     · split
@@ -333,8 +406,8 @@ theorem decode_spec : (t : Ty) → t.wf = true → (A K : Nat) → t.allocA ≤ 
     simp only [Ty.wf] at hwf
     have h3 := Alts.stepK_ge alts
     unfold decode
-    exact (spec_bind (spec_tick A K) fun _ => spec_bind (spec_readFull A K 4 (by omega)) fun b =>
-      decodeAlts_spec alts hwf A K hA hK (le b)).weaken
+    exact (spec_bind (spec_tick A K) fun _ => spec_read32 A K (by omega) _ (fun tag =>
+      decodeAlts_spec alts hwf A K hA hK tag)).weaken
       (by simp [Ty.allocB]) (by simp [Ty.stepS]; omega) (by cases alts <;> simp [Ty.width, Alts.width] <;> omega)
   | .vec sz e, hwf, A, K, hA, hK => by
     simp only [Ty.allocA, Ty.stepK] at hA hK
@@ -355,6 +428,8 @@ theorem decode_spec : (t : Ty) → t.wf = true → (A K : Nat) → t.allocA ≤ 
     rw [hr] at r1 r2 r3 r4 r5
     cases o with
     | ok b =>
+      have hb4 := readFull_ok_len hr
+      simp only [liftO, u32le_ok hb4]
       obtain ⟨r6, r7⟩ := r3 rfl
       simp only [allocN] at r1 r4 r5 r6 r7 ⊢
       have hloop := spec_vecLoop he hw1 (A := e.allocA + sz) (K := K) (sz := sz) (Nat.le_refl _) (by omega) (le b)
@@ -448,19 +523,54 @@ theorem np_bind {α β} {m : M α} {f : α → M β} (hm : NoPanic m) (hf : ∀ 
   | err e => rfl
   | panic p => simp [Outcome.isPanic] at h
 
+theorem np_bind_ok {α β} {m : M α} {f : α → M β} (hm : NoPanic m)
+    (hf : ∀ a, (∃ s s', m s = (.ok a, s')) → NoPanic (f a)) : NoPanic (bind m f) := by
+  intro s
+  have h := hm s
+  unfold bind
+  rcases hms : m s with ⟨o, s1⟩
+  rw [hms] at h
+  cases o with
+  | ok a => exact hf a ⟨s, s1, hms⟩ s1
+  | err e => rfl
+  | panic p => simp [Outcome.isPanic] at h
+
+theorem np_liftOk {α} (v : α) : NoPanic (liftO (Outcome.ok v)) := fun _ => rfl
+
+/-- `io.ReadFull` fills the buffer or fails: `binary.LittleEndian.Uint32` never sees a short slice -/
+theorem np_read32 {β} (f : Nat → M β) (hf : ∀ v, NoPanic (f v)) :
+    NoPanic (bind (readFull 4) fun b => bind (liftO (u32le b)) f) := by
+  refine np_bind_ok (np_readFull 4) (fun b hb => ?_)
+  obtain ⟨s, s', hs⟩ := hb
+  rw [u32le_ok (readFull_ok_len hs)]
+  exact np_bind (np_liftOk _) hf
+
+theorem np_read64 {β} (f : Nat → M β) (hf : ∀ v, NoPanic (f v)) :
+    NoPanic (bind (readFull 8) fun b => bind (liftO (u64le b)) f) := by
+  refine np_bind_ok (np_readFull 8) (fun b hb => ?_)
+  obtain ⟨s, s', hs⟩ := hb
+  rw [u64le_ok (readFull_ok_len hs)]
+  exact np_bind (np_liftOk _) hf
+
+theorem np_sliceTo (len : Nat) (k : Int) (h0 : 0 ≤ k) (h1 : k ≤ (len : Int)) : NoPanic (sliceTo len k) := by
+  intro s; unfold sliceTo; rw [if_neg (by omega)]; rfl
+
 theorem np_padLoop (k : Nat) : NoPanic (padLoop k) := by
   induction k with
   | zero => exact np_ret ()
   | succ k ih => unfold padLoop; exact np_bind (np_readFull 1) fun _ => ih
 
-theorem np_readChunks (k rem : Nat) : NoPanic (readChunks k rem) := by
-  induction k generalizing rem with
+theorem np_readChunks (fuel n got : Nat) : NoPanic (readChunks fuel n got) := by
+  induction fuel generalizing got with
   | zero => exact np_ret ()
-  | succ k ih =>
+  | succ fuel ih =>
     unfold readChunks
     split
     · exact np_ret ()
-    · exact np_bind (np_readFull _) fun _ => np_bind (np_allocN _) fun _ => ih _
+    · rename_i h
+      have hm : maxPrealloc = 4096 := rfl
+      refine np_bind (np_sliceTo _ _ (by omega) (by omega)) fun _ =>
+        np_bind (np_readFull _) fun _ => np_bind (np_allocN _) fun _ => ih _
 
 theorem np_allocRead (n : Nat) : NoPanic (allocRead n) :=
   np_bind (np_allocN n) fun _ => np_bind (np_readFull n) fun _ => np_ret ()
@@ -469,7 +579,7 @@ theorem np_readN (n : Nat) : NoPanic (readN n) := by
   unfold readN
   split
   · exact np_allocRead n
-  · exact np_bind (np_allocN _) fun _ => np_readChunks _ _
+  · exact np_bind (np_allocN _) fun _ => np_readChunks _ _ _
 
 theorem np_readByteSlice (cfg : Cfg) : NoPanic (readByteSlice cfg) := by
   unfold readByteSlice
@@ -478,7 +588,10 @@ theorem np_readByteSlice (cfg : Cfg) : NoPanic (readByteSlice cfg) := by
   split
   · exact np_bind (np_allocRead _) fun _ => np_bind (np_padLoop _) fun _ => np_ret _
   · split
-    · refine np_bind (np_readFull 3) fun sb => ?_
+    · refine np_bind_ok (np_readFull 3) fun sb hsb => ?_
+      obtain ⟨s0, s0', hs0⟩ := hsb
+      rw [u32le_ok (by simp [readFull_ok_len hs0])]
+      refine np_bind (np_liftOk _) fun n => ?_
       refine np_bind ?_ fun _ => np_bind (np_padLoop _) fun _ => np_ret _
       split
       · exact np_allocRead _
@@ -502,11 +615,11 @@ theorem np_vecLoop {dec : M Nat} (hdec : NoPanic dec) (sz n : Nat) : NoPanic (ve
 mutual
 /-- no type descriptor and no input make the repaired decoder panic -/
 theorem decode_np : (t : Ty) → NoPanic (decode Cfg.fixed t)
-  | .int4 => by unfold decode; exact np_bind np_tick fun _ => np_bind (np_readFull 4) fun _ => np_ret _
-  | .int8 => by unfold decode; exact np_bind np_tick fun _ => np_bind (np_readFull 8) fun _ => np_ret _
+  | .int4 => by unfold decode; exact np_bind np_tick fun _ => np_read32 _ fun v => np_ret v
+  | .int8 => by unfold decode; exact np_bind np_tick fun _ => np_read64 _ fun v => np_ret v
   | .bool => by
     unfold decode
-    refine np_bind np_tick fun _ => np_bind (np_readFull 4) fun b => ?_
+    refine np_bind np_tick fun _ => np_read32 _ fun v => ?_
     split
     · exact np_ret _
     · split
@@ -528,10 +641,10 @@ theorem decode_np : (t : Ty) → NoPanic (decode Cfg.fixed t)
     exact np_bind np_tick fun _ => decode_np e
   | .struct fs => by unfold decode; exact np_bind np_tick fun _ => decodeFields_np fs 0
   | .sum alts => by
-    unfold decode; exact np_bind np_tick fun _ => np_bind (np_readFull 4) fun b => decodeAlts_np alts _
+    unfold decode; exact np_bind np_tick fun _ => np_read32 _ fun tag => decodeAlts_np alts tag
   | .vec sz e => by
     unfold decode
-    exact np_bind np_tick fun _ => np_bind (np_readFull 4) fun b => np_bind (np_allocN _) fun _ =>
+    exact np_bind np_tick fun _ => np_read32 _ fun ln => np_bind (np_allocN _) fun _ =>
       np_vecLoop (decode_np e) sz _
 theorem decodeFields_np : (fs : Fields) → (mode : Nat) → NoPanic (decodeFields Cfg.fixed fs mode)
   | .nil, _ => by unfold decodeFields; exact np_ret 0
@@ -578,6 +691,9 @@ theorem zero_width_steps (b0 b1 b2 b3 : UInt8) :
     2 * le [b0, b1, b2, b3] ≤ (run Cfg.fixed (.vec 0 (.struct .nil)) [b0, b1, b2, b3]).2.steps := by
   unfold run decode
   simp only [bind, tick, readFull, allocN, List.length_cons, List.length_nil, Nat.le_refl, if_true]
+  have h4 : u32le (List.take 4 [b0, b1, b2, b3]) = .ok (le [b0, b1, b2, b3]) := by
+    rw [u32le_ok (by simp)]; simp
+  simp only [liftO, h4]
   rw [(vecLoop_zero_steps _ _).1]
   simp only [List.take]
   omega
